@@ -100,8 +100,14 @@ class interp1d:
                 if bool(symnp.e_or(below, above)):
                     outside = True
             if outside:
+                fv = self.fill_value
+                if isinstance(fv, tuple):          # (below, above), each broadcast over the leading axes of y
+                    fv = fv[0] if bool(below) else fv[1]
+                fv = _values(fv)
+                fva = np.broadcast_to(symnp._obj(fv) if isinstance(fv, (np.ndarray, list)) else np.array(fv, dtype=object), lead) \
+                    if lead else None
                 for lpos in np.ndindex(*lead):
-                    out[lpos + qpos] = self.fill_value
+                    out[lpos + qpos] = fva[lpos] if fva is not None else (fv if not isinstance(fv, np.ndarray) else fv[()])
                 continue
             if mode == 'fork':
                 seg = n - 2
